@@ -262,7 +262,7 @@ def run(ctx):
              if d < 3 or len(set(h)) <= 2 or h[0] == h[2]]
     if not ctx.quick:
         # three compilations from the same objects, and ABA / AAB / ABB patterns are included above; add depth 4 on a core
-        core = [n for n in names if n in ("flatA", "flatB", "conv", "hw:mm/MKN|buf:Z.N@M/eager|cp", "file:extensor.yaml")]
+        core = [n for n in names if n in ("flatA", "flatB", "hw:mm/MKN|buf:Z.N@M/eager|cp")]
         hists += [list(h) for h in itertools.product(core, repeat=4)]
     res = pmap(run_history, hists, jobs=ctx.jobs, seed=ctx.seed, fresh=True, progress="C15")
     viols, states, ntext = [], set(), 0
